@@ -77,6 +77,14 @@ def check_property(prop, tier, seed, run_symbolic, lock, verbose=False, jobs=Non
                 o['task'] = r['key']
                 obligations.append(o)
     extra_obs, extra_info = extras.run(prop, tier, seed)
+    cvc5 = {'agree': 0, 'disagree': [], 'undecided': 0, 'seconds': 0.0}
+    for r in results:
+        c = r.get('cvc5')
+        if c:
+            cvc5['agree'] += c['agree']
+            cvc5['undecided'] += c['undecided']
+            cvc5['disagree'] += c['disagree']
+            cvc5['seconds'] += c['seconds']
     for o in extra_obs:
         o.setdefault('task', 'extras')
     obligations += [o for o in extra_obs if prop in o['props']]
@@ -140,6 +148,14 @@ def check_property(prop, tier, seed, run_symbolic, lock, verbose=False, jobs=Non
                             {'func': 'sqv/native/oracles.py', 'path': '', 'model': ores['failures'][0], 'info': {}, 'static': True},
                             eng.src.repo)
         violations.append(('bounded-standin:%s:failing-input-on-the-real-code' % prop, rp))
+    if tier == 'thorough':
+        # cross-check of the stubs (the largest part of the trusted base) against CPython
+        sc = replay.run_oracle('STUBS', eng.src.repo, seed, 'thorough')
+        sres = sc.get('result') or {}
+        extra_info['bounded_standins'].append({'name': 'stub cross-check against CPython (sqv/native/oracles.py STUBS)', 'bound': 'seeded random draws',
+                                              'cases': sres.get('cases', 0), 'failures': sres.get('n_failures', 0), 'counted_as_proved': False})
+        if sres.get('failures') or not sres:
+            errors.append(('stubcheck', 'a stub disagrees with CPython: %s' % ((sres.get('failures') or [sc.get('stderr')])[0],)))
     if ores.get('oracle_error') or (not ores):
         errors.append(('oracle', 'native oracle failed: %s' % (ores.get('oracle_error') or orc.get('stderr'))))
     unknown_names = sorted(n for n, st in verdict.items() if st == 'unknown')
@@ -156,11 +172,13 @@ def check_property(prop, tier, seed, run_symbolic, lock, verbose=False, jobs=Non
         out.append('  obligation %s refuted%s' % (n, '' if rp['reproduced'] else ' (verifier counter-model did not replay natively; obligation and solver output are in the replay file)'))
     if violations:
         exit_code = 1
-    elif errors or not canary_ok or missing:
+    elif errors or not canary_ok or missing or cvc5['disagree']:
         exit_code = 3
     elif undecided or unknown_names:
         exit_code = 2
 
+    for dsg in cvc5['disagree'][:5]:
+        out.append('CHECKER-ERROR back ends disagree: %s' % dsg)
     for k, e in errors[:5]:
         out.append('CHECKER-ERROR %s: %s' % (k, e.strip().splitlines()[-1] if e.strip() else e))
     if not canary_ok:
@@ -197,7 +215,9 @@ def check_property(prop, tier, seed, run_symbolic, lock, verbose=False, jobs=Non
             'tasks_run': len(run_labels), 'tasks_total': len(labels),
             'paths': sum(r['paths'] for r in results), 'dead_paths': sum(r['dead_paths'] for r in results),
             'backends': {'z3': len([o for o in obligations if not o.get('static')]),
-                         'static(structural)': len([o for o in obligations if o.get('static')])},
+                         'static(structural)': len([o for o in obligations if o.get('static')]),
+                         'cvc5(re-check of one instance per clause, thorough tier)': cvc5['agree'],
+                         'cvc5_undecided': cvc5['undecided'], 'cvc5_disagree': len(cvc5['disagree']), 'cvc5_seconds': round(cvc5['seconds'], 1)},
             'solver_time_s': round(sum(o.get('time') or 0 for o in obligations), 3),
             'symbolic_wall_s': round(sym_time, 2),
             'canaries': can,
